@@ -3,6 +3,7 @@
 package classifier
 
 import (
+	"bytes"
 	"errors"
 	"fmt"
 	"io"
@@ -268,7 +269,13 @@ func c08Faults(c *vrep.Ctx) {
 		inputs = append(inputs, in)
 	}
 	chunks := []int{0, 1, 1021}
-	c.R.Rule = fmt.Sprintf("failure injection: %d inputs (<=3000 bytes) x EVERY failure offset k in 0..len(input) x default chunk sizes %v x {error alone, error together with the last data}; MatchFrom must return the injected error and zero Results, never a panic or partial matches; non-trivial = distinct (input, offset, policy) executions", len(inputs), chunks)
+	wantOK := make([]string, len(inputs))
+	for i, in := range inputs {
+		wantOK[i] = vFmt(cl.Match(in))
+	}
+	probe := []byte("zqa aa bb cc aa bb zqb")
+	wantProbe := vFmt(cl.Match(probe))
+	c.R.Rule = fmt.Sprintf("failure injection: %d inputs (<=3000 bytes) x EVERY failure offset k in 0..len(input) x default chunk sizes %v x {error alone, error together with the last data}; MatchFrom must return the injected error and zero Results, never a panic or partial matches, and the next Match of the same text and MatchFrom of a short text on the same classifier return what they returned before the fault; non-trivial = distinct (input, offset, policy) executions", len(inputs), chunks)
 	c.Bound("inputs", len(inputs))
 	body := func(r *vx.Run) {
 		ii := r.Choose(len(inputs), "input")
@@ -285,6 +292,15 @@ func c08Faults(c *vrep.Ctx) {
 				panic("returned partial results together with the error: " + vFmt(res))
 			}
 		})
+		if msg == "" {
+			// nothing of the aborted call may survive it: the very next calls on the same classifier
+			// return what they return on a classifier that never saw the fault
+			if got := vFmt(cl.Match(inputs[ii])); got != wantOK[ii] {
+				msg = fmt.Sprintf("after the failed MatchFrom, Match of the same text returned %s, before it %s", got, wantOK[ii])
+			} else if res, err := cl.MatchFrom(bytes.NewReader(probe)); err != nil || vFmt(res) != wantProbe {
+				msg = fmt.Sprintf("after the failed MatchFrom, MatchFrom of a short text returned %s (%v), before it %s", vFmt(res), err, wantProbe)
+			}
+		}
 		r.Note = map[string]interface{}{"id": fmt.Sprintf("in%d fail@%d chunk%d with%v", ii, k, ch, with), "msg": msg}
 	}
 	c.Run(vSplitExplorer(c, 0, 2), body, func(r *vx.Run) {
